@@ -191,7 +191,7 @@ def disarmShutdownTimers (s : State) : State :=
     the rest of the Reset goroutine (`Server.Clear`, …) follows after pause point
     `server.reset.beforeClear` — modelled as the timer `resetTail:<from>` that may fire at once. -/
 def afterReset (s : State) (from_ : Nat) : State :=
-  let s := { s with gen := s.gen + 1 }
+  let s := { s with gen := s.gen + 1, resetErr := s.fatal.isSome }
   let s := { s with fatal := none, renderer := .none, initDone := false, rt := none, rtParked := [], rtFlag := false,
                     agents := [], regOn := true, cancelDone := false, initFlow := {
                       extRegistered := s.initFlow.extRegistered.clear, runtimeReady := s.initFlow.runtimeReady.clear,
@@ -204,7 +204,7 @@ def afterReset (s : State) (from_ : Nat) : State :=
 def resetTail (s : State) (from_ : Nat) : State :=
   let s := release { s with doneChan := none, cached := none, rapidPhaseInvoking := false }
   match from_ with
-  | 0 => s.emit "reset done err=false"
+  | 0 => s.emit s!"reset done err={s.resetErr}"
   | 1 => { s with flights := s.flights.map fun f => if f.g0 == .timeoutResetWait then { f with g0 := .timeoutAwaitRelease } else f }
   | _ => { s with flights := s.flights.map fun f => if f.g2 == .resetWait then { f with g2 := .done } else f }
 
